@@ -52,6 +52,8 @@ type FuncContract struct {
 	Used       bool
 	Ghost      []*GhostAssign
 	Trusts     []*Clause
+	Yields     []*Clause
+	Exhausts   []*Clause
 }
 
 type PureFunc struct {
@@ -110,7 +112,7 @@ func newContracts() *Contracts {
 var reHeader = regexp.MustCompile(`^func\s*(\(\s*(\w+)?\s*(\*?)\s*([\w.]+)\s*\))?\s*([\w$.]+)\s*(\((.*)\))?`)
 var reClauseName = regexp.MustCompile(`^#([\w.$@-]+)\s*(\[([^\]]*)\])?\s*(local|internal)?\s*:\s*`)
 
-var subKeywords = map[string]bool{"props": true, "requires": true, "ensures": true, "modifies": true, "loop": true, "inline": true, "trusted": true, "flag": true, "pure": true, "ghost": true, "trusts": true}
+var subKeywords = map[string]bool{"props": true, "requires": true, "ensures": true, "modifies": true, "loop": true, "inline": true, "trusted": true, "flag": true, "pure": true, "ghost": true, "trusts": true, "yields": true, "exhausts": true}
 
 // GhostAssign: `ghost x.f := expr` — ghost update performed at function exit (ghost state is never read by
 // executable code, so deferring all ghost updates to the exit is equivalent to performing them in place).
@@ -333,7 +335,7 @@ func (cs *Contracts) loadFile(path string, pkgPath string, isExternFile bool) er
 			} else if len(fields) == 2 {
 				cur.Flags[fields[1]] = "true"
 			}
-		case "requires", "ensures", "trusts":
+		case "requires", "ensures", "trusts", "yields", "exhausts":
 			c, err := parseClause(rest, l)
 			if err != nil {
 				return fail(l, "%v", err)
@@ -343,6 +345,12 @@ func (cs *Contracts) loadFile(path string, pkgPath string, isExternFile bool) er
 				cur.Requires = append(cur.Requires, c)
 			case "ensures":
 				cur.Ensures = append(cur.Ensures, c)
+			case "exhausts":
+				// exhausts: what holds when an iterating method ran out of elements (visited(x) = x was yielded)
+				cur.Exhausts = append(cur.Exhausts, c)
+			case "yields":
+				// yields: what holds for the arguments of every callback invocation of an iterating method (flag iterates)
+				cur.Yields = append(cur.Yields, c)
 			default:
 				// trusts: a postcondition assumed at call sites but NOT proved for the body (listed as an assumption)
 				cur.Trusts = append(cur.Trusts, c)
